@@ -419,6 +419,16 @@ func runC02(c *fw.Ctx) {
 	}
 	forEachOutputTree(c, 4000, 2000000, c02Tree)
 	numericOrigins(c, c02Tree)
+	overridingHolders(c, func(real any, want *spec.Spec, where string, r *rng.R) {
+		guard(c, func() string { return where }, func() {
+			for rep := 0; rep < 2; rep++ {
+				text := stringOf(real)
+				if !checkJSONText(c, "string", text, want, func() string { return where + "\nString() = " + spec.Trunc(text, 2000) }) {
+					return
+				}
+			}
+		})
+	})
 	historyCases(c, "history", 600, 60000, probeJSONText)
 	for _, gen := range []func(*fw.Ctx, func(*spec.Spec, *rng.R)){deepOutputTrees, largeFlatTrees, longStringTrees} {
 		gen(c, func(tree *spec.Spec, r *rng.R) {
@@ -470,6 +480,15 @@ func runC16(c *fw.Ctx) {
 		guard(c, func() string { return spec.Trunc(describeTree(tree), 300) }, func() { c16Case(c, tree, r) })
 	})
 	historyCases(c, "history", 400, 40000, probeFormat)
+	overridingHolders(c, func(real any, want *spec.Spec, where string, r *rng.R) {
+		guard(c, func() string { return where }, func() {
+			indent := []int{0, 1, 2, 4, 10}[r.Intn(5)]
+			out := formatOf(real, indent)
+			checkJSONText(c, "format", out, want, func() string {
+				return fmt.Sprintf("%s\nFormatString(%d) = %s", where, indent, spec.Trunc(out, 2000))
+			})
+		})
+	})
 	// very long lines (a single string / key beyond 64 KiB) inside nested containers, a few indents only
 	c.Cases("long-lines", c.N(4, 24), true, func(i int, r0 *rng.R) {
 		if c.Arch386 {
